@@ -306,6 +306,14 @@ def check(run, P):
     from .c01 import _alias
     _alias(run, "C08.mapper", "C02.readsets", lambda: c08._mapper_config(run, P))
 
+    f = edges(run, P)
+    _condition(run, P, f)
+    _guard(run, P)
+    _fresh(run, P)
+
+
+def edges(run, P):
+    """Dependency edges recorded by CodeBuilder._add_statement (abstract summary)."""
     f, S, na_name, assign_tuple = summarise(P)
     loops = [(n, i) for k, n, i in S.events if k == "loop"]
     if len(loops) < 4:
@@ -424,10 +432,7 @@ def check(run, P):
            construct=f"assignment classes {sorted(got)} vs hierarchy {sorted(expected)}",
            why="a statement kind wrongly treated as an assignment is no barrier; "
                "an assignment treated as barrier only costs parallelism")
-
-    _condition(run, P, f)
-    _guard(run, P)
-    _fresh(run, P)
+    return f
 
 
 def _cond_var(f):
